@@ -315,6 +315,22 @@ def obligation(args):
             if o[0] == "br_table":
                 sel = max(sel, len(o[1]))
         r, sched, st = M.equivalent(impl, sp, hooks, mf, sel_range=sel, nparams=nparams, compare_ret=nresults > 0)
+        depth = 0
+        while r == "unknown" and depth < 6:
+            # the solver gave up (time limit, typically on a loaded machine): split on the first oracle values -
+            # the sub-queries together cover exactly the same streams - and deepen the split until all are decided
+            import itertools
+            depth += 2
+            r = "unsat"
+            for vals in itertools.product(range(sel + 1), repeat=depth):
+                rr, sc, st = M.equivalent(impl, sp, hooks, mf, sel_range=sel, nparams=nparams, compare_ret=nresults > 0, pin=tuple(enumerate(vals)))
+                if rr == "sat":
+                    r, sched = "sat", sc
+                    break
+                if rr != "unsat":
+                    r = "unknown"
+                    break
+            st = dict(st, case_split_depth=depth)
         return key, r, sched, round(time.time() - t0, 2), st
     except M.Unsupported as e:
         return key, "unsupported:" + str(e), None, round(time.time() - t0, 2), {}
